@@ -244,21 +244,28 @@ class ExecResolve(ExecCall):
             sorts = [x.sort() for x in vers + argt] + [w.sort_of(c.returns)]
             f = w.uf(f"obs:{c.name}", *sorts)
             res = w.wrap(c.returns, f(*(vers + argt)))
+            ikey = ("obs", c.name, res.t.get_id())
+            if ikey in st.inst and (spec_call or not c.requires):
+                yield st, res       # this instance's facts are already part of the path condition
+                return
+            st.inst.add(ikey)
         else:
             res = w.fresh(c.returns, f"ret_{c.name.split('.')[-1]}")
         if isinstance(res, V):
             for f_ in self.type_facts(st, res, c.returns, fresh=c.fresh_result, snap=snap):
                 st.assume(f_)
         # ensures (nested instantiation inside specs is cut at depth 4: fewer facts, never unsound)
-        if spec_call and self.spec_inst_depth >= 4:
+        if spec_call and self.spec_inst_depth >= self.max_inst_depth:
             yield st, res
             return
+        # (synchronous: generators are lazy, so the depth counter must not stay raised across a yield)
         self.spec_inst_depth += 1
         try:
-            yield from self._assume_ensures(st, c, env, res, snap, spec_call,
-                                            req_terms + ([raise_guard] if (spec_call and raise_guard is not None) else []))
+            self._assume_ensures(st, c, env, res, snap, spec_call,
+                                 req_terms + ([raise_guard] if (spec_call and raise_guard is not None) else []))
         finally:
             self.spec_inst_depth -= 1
+        yield st, res
 
     def _assume_ensures(self, st, c, env, res, snap, spec_call, req_terms):
         w = self.w
@@ -277,7 +284,6 @@ class ExecResolve(ExecCall):
                 st.assume(t)
         finally:
             st.pre = saved_pre
-        yield st, res
 
     def with_lets(self, st, c, env):
         if not c.let:
